@@ -864,35 +864,47 @@ def _strip(c):
     return d
 
 
+_SHRINK_CALLS = [0]
+SHRINK_BUDGET = 90     # shrink rounds per run (every round costs two driver calls)
+
+
 def shrink(c):
+    """Few, strongly smaller candidates per round: single stages first, then k, then parameters."""
     if c["entry"] != "reads":
+        return
+    _SHRINK_CALLS[0] += 1
+    if _SHRINK_CALLS[0] > SHRINK_BUDGET:
         return
     cands = []
     ch = c["chain"]
-    for i in range(len(ch)):
-        sub = ch[:i] + ch[i + 1:]
-        if sub and _well_kinded(sub):
-            cands.append(dict(_strip(c), chain=sub))
-    for i in range(len(ch)):
-        if _well_kinded([ch[i]]):
-            cands.append(dict(_strip(c), chain=[ch[i]]))
+    if len(ch) > 1:
+        for i in range(len(ch)):
+            if _well_kinded([ch[i]]):
+                cands.append(dict(_strip(c), chain=[ch[i]]))
+        for i in range(len(ch)):
+            sub = ch[:i] + ch[i + 1:]
+            if _well_kinded(sub):
+                cands.append(dict(_strip(c), chain=sub))
     if c["mode"] == "drain":
         if c["n"] > 0:
-            cands.append(dict(_strip(c), n=c["n"] - 1))
-            cands.append(dict(_strip(c), n=c["n"] // 2))
+            cands += [dict(_strip(c), n=v) for v in sorted({0, c["n"] // 2, c["n"] - 1})]
         cands = [x for x in cands if _drainable(x["chain"])]
     elif c["k"] > 1:
-        cands.append(dict(_strip(c), k=c["k"] - 1))
-        cands.append(dict(_strip(c), k=max(1, c["k"] // 2)))
+        cands += [dict(_strip(c), k=v) for v in sorted({1, c["k"] // 2, c["k"] - 1})]
     if c["mode"] not in ("finite", "drain"):
         cands.append(dict(_strip(c), mode="finite", slack=5))
     for i, el in enumerate(ch):
         for key, val in el["p"].items():
             if isinstance(val, int) and not isinstance(val, bool) and val > 1 and key not in ("order",):
+                for v in sorted({1, val // 2, val - 1}):
+                    nc = _strip(c)
+                    nc["chain"][i] = {"st": el["st"], "p": dict(el["p"], **{key: v})}
+                    if _well_kinded(nc["chain"]):
+                        cands.append(nc)
+            elif isinstance(val, list) and len(val) > 1 and key in ("pat", "filters", "terms"):
                 nc = _strip(c)
-                nc["chain"][i] = {"st": el["st"], "p": dict(el["p"], **{key: val - 1})}
-                if _well_kinded(nc["chain"]):
-                    cands.append(nc)
+                nc["chain"][i] = {"st": el["st"], "p": dict(el["p"], **{key: val[:len(val) // 2]})}
+                cands.append(nc)
     try:
         _attach(cands)
     except Exception:
@@ -921,24 +933,35 @@ def neighbours(c):
 
 
 def classify(c, io, drv):
+    """<blamed stage>:<what fails> - coarse on purpose: one signature per stage and failure kind."""
     if c["entry"] != "reads":
         return c["entry"] + ":" + ("err:" + io["err"] if "err" in io else "over-read")
+    names = [el["st"] for el in c["chain"]]
     if "err" in io:
-        st = c["chain"][0]["st"] if len(c["chain"]) == 1 else "chain"
-        return "%s:err:%s" % (st, io["err"])
-    if any(io["c0"]) or any(io.get("c1", [])):
-        return "%s:reads-at-construction" % "+".join(el["st"] for el in c["chain"])
+        return "%s:err:%s" % (names[0] if len(names) == 1 else "chain", io["err"])
+    for vec in (io["c0"], io.get("c1", [])):
+        if any(vec):
+            i = next(k for k, v in enumerate(vec) if v)
+            return "%s:reads-at-construction" % (names[i] if i < len(names) else names[vec_stage(io, i, len(names))])
     want = drv["spec"] if c["mode"] != "drain" else drv["model"]
-    if c["mode"] == "drain" and io["outs"] != drv["outs"] and all(g == e[:len(g)] or g[:len(e)] == e for g, e in zip(io["levels"], want)):
-        return "%s:finite-source-output-count" % "+".join(el["st"] for el in c["chain"])
-    for i, (got, exp) in enumerate(zip(io["levels"], want)):
+    if c["mode"] == "drain" and io["outs"] != drv["outs"] and \
+            all(g == e[:len(g)] or g[:len(e)] == e for g, e in zip(io["levels"], want)):
+        return "%s:finite-source-output-count" % (names[0] if len(names) == 1 else "chain")
+    for i in reversed(range(len(io["levels"]))):      # blame the most downstream stage that misbehaves
+        got, exp = io["levels"][i], want[i]
         exp = exp[:len(got)]
         if got != exp:
             j = next(k for k in range(len(got)) if k >= len(exp) or got[k] != exp[k])
             if j >= len(exp):
-                return "%s:extra-outputs" % c["chain"][i]["st"]
-            return "%s:%s" % (c["chain"][i]["st"], "over-read" if got[j] > exp[j] else "under-read")
+                return "%s:extra-outputs" % names[i]
+            return "%s:%s" % (names[i], "over-read" if got[j] > exp[j] else "under-read")
     for (i, rule, got) in io["aux"]:
         if got != want[i][:len(got)]:
-            return "%s:aux-source" % c["chain"][i]["st"]
-    return "%s:other" % c["chain"][0]["st"]
+            return "%s:aux-source" % names[i]
+    return "%s:other" % names[0]
+
+
+def vec_stage(io, i, nst):
+    """index of the stage owning auxiliary source number i - nst"""
+    k = i - nst
+    return io["aux"][k][0] if 0 <= k < len(io["aux"]) else 0
